@@ -121,6 +121,9 @@ def body(env, cfg):
     if kind == "points":
         m = kv.n + cfg["extra"]
         nodes = greville_like(kv, m, p)
+        # the nodes need not be given in increasing order: least squares does not depend on the order of the (node, point) pairs
+        rot = (p + len(mults) + cfg["extra"]) % m
+        nodes = nodes[rot:][::-1] + nodes[:rot]
         B = [colloc_row(kv, W, z) for z in nodes]
         if rank(B, kv.n) < kv.n:
             return
@@ -140,6 +143,7 @@ def body(env, cfg):
     if kind == "samples":
         m = kv.n + 3
         nodes = greville_like(kv, m, p + 1)
+        nodes = nodes[1::2] + nodes[0::2]  # (not increasing)
         B = [colloc_row(kv, W, z) for z in nodes]
         if rank(B, kv.n) < kv.n:
             return
